@@ -133,6 +133,16 @@ func c08Ops(rt *rapid.T, cols []model.Col, db *model.DB, nextRid *int64, n int) 
 			}
 			*nextRid++
 			op.Stmt = model.Stmt{Kind: "insert", Table: c08Table, Rows: [][]model.Val{row}}
+			if rapid.IntRange(0, 2).Draw(rt, "collist") == 0 {
+				// the complete column list, in another order than the table's: values go by name
+				perm := rapid.Permutation(intsUpTo(len(cols))).Draw(rt, "colperm")
+				prow := make([]model.Val, len(cols))
+				for i, ci := range perm {
+					op.Stmt.InsCols = append(op.Stmt.InsCols, cols[ci].Name)
+					prow[i] = row[ci]
+				}
+				op.Stmt.Rows = [][]model.Val{prow}
+			}
 		case "delete":
 			// a deleted row's neighbours must keep reading back exactly
 			if len(t.Rows) == 0 {
@@ -214,6 +224,14 @@ func c08Ops(rt *rapid.T, cols []model.Col, db *model.DB, nextRid *int64, n int) 
 		ops = append(ops, op)
 	}
 	return ops
+}
+
+func intsUpTo(n int) []int {
+	r := make([]int, n)
+	for i := range r {
+		r[i] = i
+	}
+	return r
 }
 
 // c08BulkRow is a plain valid row (row number, small values) used to pre-fill the table.
